@@ -107,5 +107,21 @@ pages!(send_pages_p0, 0, 16, 12, 8, 3);
 pages!(send_pages_p1_16, 1, 16, 12, 8, 3);
 pages!(send_pages_p1_48, 1, 48, 30, 7, 3);
 pages!(send_pages_p2_16, 2, 16, 12, 8, 3);
+pages!(send_pages_p1_16_a1, 1, 16, 12, 8, 1);
+pages!(send_pages_p1_32_a1, 1, 32, 28, 8, 1);
 pages!(send_pages_p1_48_a1, 1, 48, 30, 7, 1);
 pages!(send_pages_p2_16_a1, 2, 16, 12, 8, 1);
+
+/// Quick-tier variant of `configure`: one sign type, first transfer attempt only.
+#[kani::proof]
+#[kani::stub(std::fmt::format, crate::ctl::no_format)]
+fn configure_a1() {
+    let (res, bus) = run_unit_bounded(Call::Configure, Replies::Arbitrary, false, false, 0, 1, true);
+    let b = bus.borrow();
+    invariants(&b, res, true);
+    let dead = b.dead;
+    kani::cover!(dead, "stopped on a disallowed reply or bus error");
+    kani::cover!(res == Res::Ok, "success");
+    drop(b);
+    std::mem::forget(bus);
+}
